@@ -1306,3 +1306,31 @@ def check_shared_mutables(ck, rule: str, fi: FunctionInfo) -> None:
             if hit is not None:
                 ck.violated(rule, fi, st, f"{name} = {shared}: every entry is one and the same object, and `{ast.unparse(hit)[:60]}` changes it in place: the update made for one key is seen under all the others")
                 break
+
+
+def share_clauses(ck, modname: str, mapping: Dict[str, Tuple[str, str]], keep=None) -> int:
+    """Clauses decided for another property that are necessary conditions of this one as well
+    (e.g. "fit does not write into an object held in a hyper-parameter" is part of C02 and of
+    "a refit equals a fresh clone", C03): the other rule module is run on the same sources and
+    the obligations of the listed rules are taken over under this property's rule ids.
+    mapping: other rule id -> (own rule id, description); keep: optional filter on obligations."""
+    import importlib
+    from engine.report import Checker, Obligation
+
+    sub = Checker(modname.upper(), "quick", ck.repo, quiet=True)
+    try:
+        importlib.import_module(f"rules.{modname}").run(sub)
+        sub._decorator_guard()
+        sub._shared_mutable_guard()
+    except Exception as e:  # the other property's own anchors are its own business
+        ck.notes.append(f"shared clauses of {modname.upper()} not evaluated: {type(e).__name__}: {e}")
+        return 0
+    n = 0
+    for o in sub.obs:
+        if o.rule not in mapping or (keep is not None and not keep(o)):
+            continue
+        rid, text = mapping[o.rule]
+        ck.rule(rid, text + f" (clause {o.rule}, shared)")
+        ck.obs.append(Obligation(rid, o.file, o.function, o.statement, o.verdict, o.detail, o.line, o.path, o.nontrivial))
+        n += 1
+    return n
